@@ -101,6 +101,17 @@ theorem fcgi_roundtrip (lim : Limits) (hb : 0 < lim.bufSize) (conc : Bytes) (eps
   rw [fcgiRun_eq_flat, h]
   exact fcgiFlat_roundtrip lim hb conc eps body fr hw
 
+/-- **keep-alive sequence** (FastCGI, any segmentation): well-formed requests with `FCGI_KEEP_CONN` sent back
+to back on one connection — each framed freely — are each delivered exactly, in order, as long as each is
+answered by the application; the connection ends when the peer closes. -/
+theorem keepalive_sequence_fcgi (lim : Limits) (hb : 0 < lim.bufSize) (conc : Bytes) (qs : List FcgiReqSpec)
+    (hq : ∀ q ∈ qs, WFFcgi q.eps q.body q.fr ∧ isApp (outcomeOf lim q) = true)
+    (segs : Segs) (h : segs.flatten = encSeq qs) :
+    fcgiRun lim conc segs = qs.map (outcomeOf lim) ++ [.aborted .eof false false] := by
+  rw [fcgiRun_eq_flat, h]
+  unfold fcgiFlat
+  exact fcgiConn_seq lim hb conc qs false _ hq (by omega)
+
 /-- **SCGI and FastCGI agree**: the same environment and body sent over either front-end, however
 framed and segmented, have the same fate (same application view, same error answer). -/
 theorem frontends_agree_scgi_fcgi (lim : Limits) (hb : 0 < lim.bufSize) (conc : Bytes) (eps : List EncPair) (body : Bytes)
